@@ -48,3 +48,12 @@ for pid in ids:
         m['not_applicable'].append({'property_id': pid, 'reason': props.NOT_CLAIMED.get(pid, 'contracts not completed')})
 json.dump(m, open(os.path.join(VERIF, 'MANIFEST.json'), 'w'), indent=1)
 print('claimed:', [c['property_id'] for c in m['checks']])
+
+# the table of hint-dependent clauses must match the contracts it was computed from
+try:
+    import json as _json, kv as _kv
+    _fr = _json.load(open(os.path.join(_kv.VERIF, 'contracts', 'fragile.json')))
+    if _fr.get('_contracts_sha') != _kv.contracts_sha():
+        print('WARNING: contracts/fragile.json is stale (run: python3 tools/fragile.py); until then a failure after a lost proof hint is always UNDECIDED')
+except Exception as _e:
+    print('WARNING: contracts/fragile.json unreadable: %r' % (_e,))
